@@ -11,7 +11,7 @@
    (`nested _ = false`), and — where the statement speaks about `addressed` — the tree's separator is
    a single character `[c]` (K3: with a multi-character separator str.rstrip strips a character set;
    see C14_multichar_sep_refuted). *)
-From BT Require Import Base.Prelude Base.Str Base.Rose Algo.Helper Spec.PC14 Algo.HelperProofs.
+From BT Require Import Base.Prelude Base.Str Base.Rose Base.StrSep Algo.Helper Spec.PC14 Algo.HelperProofs.
 
 (* The model satisfies the whole property predicate — the predicate the check evaluates on the
    implementation's outputs — for every tree, call, flag, depth limit and one-character separator. *)
@@ -223,6 +223,100 @@ Example C14_binary_nonvacuous :
      = OTree [(1%nat, [49], []); (2%nat, [50], []); (3%nat, [], []); (3%nat, [52], []);
               (4%nat, [], []); (4%nat, [], []); (2%nat, [], [])].
 Proof. vm_compute. split; reflexivity. Qed.
+Local Close Scope N_scope.
+
+(* ---- separators of any positive length.  The code strips the character *set* of the separator from
+   the right of a path (str.rstrip), the property strips whole separators; `strip_ok tsep s` = the two
+   agree on the path s.  It holds for every path when the separator is one character
+   (C14_paths_ok_one_char) and, for every separator, for every well-formed path: optional text in front,
+   then components that are non-empty and contain no character of the separator — in particular names of
+   nodes of a tree whose names are all `sgood tsep` — joined by the separator, then any number of whole
+   trailing separators (C14_paths_ok_wellformed).  `paths_ok tsep sep paths` = every path, after
+   replace(sep, tsep), is strip_ok.  The one-character theorems above are the instances tsep = [c]. ---- *)
+
+Theorem C14_paths_ok_one_char : forall c s, strip_ok [c] s.
+Proof. exact strip_ok_single. Qed.
+Print Assumptions C14_paths_ok_one_char.
+
+Theorem C14_paths_ok_wellformed : forall tsep lead L k,
+  tsep <> [] -> L <> [] -> Forall (sgood tsep) L ->
+  strip_ok tsep (lead ++ join tsep L ++ repeat_str tsep k).
+Proof. exact strip_ok_wellformed. Qed.
+Print Assumptions C14_paths_ok_wellformed.
+
+Theorem C14_model_satisfies_prop_multi : forall tsep t call,
+  tsep <> [] -> call_ok_g tsep call -> prop_C14 tsep t call (obs_of (run_call tsep t call)) = true.
+Proof. exact model_satisfies_C14_g. Qed.
+Print Assumptions C14_model_satisfies_prop_multi.
+
+Theorem C14_model_satisfies_prop_inner_multi : forall tsep t st s0 call,
+  subtree_at t st = Some s0 -> tsep <> [] -> call_ok_g tsep call ->
+  prop_C14_at false tsep t st call (obs_of (run_call_at false tsep t st call)) = true.
+Proof. exact model_satisfies_C14_at_g. Qed.
+Print Assumptions C14_model_satisfies_prop_inner_multi.
+
+Theorem C14_prune_kept_multi : forall tsep sep t paths exact d,
+  tsep <> [] -> sep <> [] -> paths <> [] -> paths_ok tsep sep paths ->
+  singletons (hits_g tsep sep t paths) = true -> nested (concat (hits_g tsep sep t paths)) = false ->
+  exists r, prune_tree tsep t (PList paths) exact sep d = Ret r /\
+            obs_tree r =
+            map lbl_of (filter (fun ps => keep (concat (hits_g tsep sep t paths)) exact (fst ps)
+                                          && within_depth d (S (length (fst ps)))) (pre_pos t)).
+Proof. exact prune_kept_spec_g. Qed.
+Print Assumptions C14_prune_kept_multi.
+
+Theorem C14_missing_path_error_multi : forall tsep sep t paths exact d s,
+  tsep <> [] -> sep <> [] -> paths_ok tsep sep paths -> In s paths ->
+  addressed tsep t (replace s sep tsep) = [] ->
+  exists e, prune_tree tsep t (PList paths) exact sep d = Raise e.
+Proof. exact missing_path_error_g. Qed.
+Print Assumptions C14_missing_path_error_multi.
+
+Theorem C14_missing_subtree_error_multi : forall tsep t s d,
+  tsep <> [] -> s <> [] -> strip_ok tsep s -> addressed tsep t s = [] ->
+  get_subtree tsep t s d = Raise ValueError.
+Proof. exact missing_subtree_error_g. Qed.
+Print Assumptions C14_missing_subtree_error_multi.
+
+Theorem C14_subtree_spec_multi : forall tsep t s d q,
+  tsep <> [] -> s <> [] -> strip_ok tsep s -> addressed tsep t s = [q] ->
+  exists r, get_subtree tsep t s d = Ret r /\ obs_tree r = expected_subtree t q d.
+Proof. exact subtree_spec_g. Qed.
+Print Assumptions C14_subtree_spec_multi.
+
+Local Open Scope N_scope.
+(* sep "->": tree r(a(c), b); paths "r->a->" (trailing separator) and "b" are well formed and address
+   exactly one node each *)
+Example C14_multi_nonvacuous :
+  let sp := [45; 62] in
+  let t := T None [114] [] [T None [97] [] [T None [99] [] []]; T None [98] [] []] in
+  let paths := [[114] ++ sp ++ [97] ++ sp; [98]] in
+  Forall (sgood sp) [[114]; [97]; [98]]
+  /\ paths_ok sp sp paths
+  /\ hits_g sp sp t paths = [[[0]%nat]; [[1]%nat]]
+  /\ obs_of (run_call sp t (CPrune (PList paths) true sp 0%nat))
+     = OTree [(1%nat, [114], []); (2%nat, [97], []); (2%nat, [98], [])].
+Proof.
+  cbv zeta. split; [|split; [|split; vm_compute; reflexivity]].
+  - repeat constructor; try discriminate; intros ch [<-|[<-|[]]] [E|[]]; discriminate.
+  - repeat constructor; vm_compute; reflexivity.
+Qed.
+
+(* the guard on the PATH is needed even when every name of the tree is free of separator characters:
+   with sep "->" the malformed path "b>" is looked up as "b" (rstrip strips the set {'-','>'}), so a
+   path that addresses no node is not reported.  Same mechanism as K3. *)
+Example C14_multichar_malformed_path_refuted :
+  let sp := [45; 62] in
+  let t := T None [114] [] [T None [98] [] []] in
+  Forall (sgood sp) [[114]; [98]]
+  /\ addressed sp t [98; 62] = []
+  /\ obs_of (run_call sp t (CPrune (PStr [98; 62]) false sp 0%nat)) = OTree [(1%nat, [114], []); (2%nat, [98], [])]
+  /\ prop_C14 sp t (CPrune (PStr [98; 62]) false sp 0%nat)
+               (obs_of (run_call sp t (CPrune (PStr [98; 62]) false sp 0%nat))) = false.
+Proof.
+  cbv zeta. split; [|vm_compute; repeat split].
+  repeat constructor; try discriminate; intros ch [<-|[<-|[]]] [E|[]]; discriminate.
+Qed.
 Local Close Scope N_scope.
 
 (* K3 (known finding): with the two-character separator "->" the faithful model — like the code —
